@@ -199,6 +199,9 @@ func runL2Case(c *WCase, x *sim.Ctx) *sim.Violation {
 		return runMarginProbe(c, x)
 	}
 	res := runWriter(c, x)
+	if refusedWild(c, res, x) {
+		return nil
+	}
 	probeWCase(c, res, x)
 	if len(res.Log) > 0 {
 		x.Nontrivial(1)
@@ -337,6 +340,7 @@ func init() {
 				c.Payload, c.RDict = pl, dc
 				c.Ops = []Op{{K: "w", N: pl.Len()}, {K: "f"}, {K: "c"}}
 			}
+			wildConfig(r, c)
 			return c
 		},
 		Run:    runL2Case,
